@@ -346,7 +346,7 @@ theorem blockRead_eq (x : X) (sr : Sr) (b : Blk) (len : Nat) :
       else if (LazyDec2.read b.r2 len).1.srcPos + padLen ((LazyDec2.read b.r2 len).1.srcPos - b.start) +
           (checkSize sr.flags).getD 0 > x.inp.size then
         (x, { sr with br := some (blkAfter b (LazyDec2.read b.r2 len)) }, (LazyDec2.read b.r2 len).2.1,
-          .err .unexpectedEOF)
+          if x.srcErr then .err .src else .err .unexpectedEOF)
       else if !allZero x.inp (LazyDec2.read b.r2 len).1.srcPos
           ((LazyDec2.read b.r2 len).1.srcPos + padLen ((LazyDec2.read b.r2 len).1.srcPos - b.start)) then
         (x, { sr with br := some (blkAfter b (LazyDec2.read b.r2 len)) }, (LazyDec2.read b.r2 len).2.1,
@@ -372,6 +372,11 @@ theorem blockRead_eq (x : X) (sr : Sr) (b : Blk) (len : Nat) :
 
 def KX (BX : RdState × Status) : Prop := BX.2 ≠ .err "fuel exhausted"
 
+theorem ofStatusE_false (st : Status) : ofStatusE false st = ofStatus st := by cases st <;> rfl
+
+theorem ite_src {α : Type} {b : Bool} (h : b = false) (u v : α) : (if b = true then u else v) = v := by
+  rw [h]; rfl
+
 /-- what a final status of the lazy xz reader means for the batch run; `X` = everything delivered -/
 def XFin (BX : RdState × Status) (X : ByteArray) (st : RStat) : Prop :=
   NotBad st ∧ (KX BX → X.data.toList <+: BX.1.out.data.toList) ∧
@@ -383,13 +388,13 @@ variable (capX : Nat) (single : Bool) (inp : ByteArray) (BX : RdState × Status)
 
 /-- inside a stream, between two blocks -/
 def StreamInv (x : X) (sr : Sr) (D : ByteArray) : Prop :=
-  x.inp = inp ∧ x.cfgCap = capX ∧ x.single = single ∧ sr.br = none ∧
+  x.inp = inp ∧ x.cfgCap = capX ∧ x.single = single ∧ x.srcErr = false ∧ sr.br = none ∧
   (KX BX → ∃ (rs : RdState) (bs : Array Block) (fB fS : Nat), rs.inp = inp ∧ rs.pos = x.pos ∧ rs.out = D ∧
     contS capX single fS sr.flags (readBlocks false capX sr.flags fB rs bs sr.index) = BX)
 
 /-- inside a block -/
 def BlockInv (x : X) (sr : Sr) (b : Blk) (D : ByteArray) : Prop :=
-  x.inp = inp ∧ x.cfgCap = capX ∧ x.single = single ∧ sr.br = some b ∧
+  x.inp = inp ∧ x.cfgCap = capX ∧ x.single = single ∧ x.srcErr = false ∧ sr.br = some b ∧
   ∃ D0 Dblk : ByteArray, D = D0 ++ Dblk ∧ b.data = Dblk ∧ b.n = Dblk.size ∧
     b.start = x.pos + b.hdr.len ∧ b.start ≤ inp.size ∧ 1 ≤ b.hdr.len ∧
     R2Inv (max capX (dictSize b.hdr.dictCode)) inp D0.size
@@ -401,7 +406,7 @@ def BlockInv (x : X) (sr : Sr) (b : Blk) (D : ByteArray) : Prop :=
 
 /-- between two streams -/
 def GapInv (x : X) (D : ByteArray) : Prop :=
-  x.inp = inp ∧ x.cfgCap = capX ∧ x.single = single ∧ x.sr = none ∧
+  x.inp = inp ∧ x.cfgCap = capX ∧ x.single = single ∧ x.srcErr = false ∧ x.sr = none ∧
   (KX BX → ∃ (rs : RdState) (f : Nat), rs.inp = inp ∧ rs.pos = x.pos ∧ rs.out = D ∧ readStreams false capX single f false rs = BX)
 
 end
@@ -503,7 +508,7 @@ theorem dictSize_ge (c : Nat) : 4096 ≤ dictSize c := by
 theorem blockRead_spec {x : X} {sr : Sr} {b : Blk} {D : ByteArray}
     (h : BlockInv capX single inp BX x sr b D) (len : Nat) :
     BlockPost capX single inp BX x b D len (blockRead x sr b len) := by
-  obtain ⟨hxi, hxc, hxs, hbr, D0, Dblk, hD, hdata, hn, hstart, hsle, hhl, hR2, hKX⟩ := h
+  obtain ⟨hxi, hxc, hxs, hxe, hbr, D0, Dblk, hD, hdata, hn, hstart, hsle, hhl, hR2, hKX⟩ := h
   have hcapB : 274 ≤ max capX (dictSize b.hdr.dictCode) := by
     have := dictSize_ge b.hdr.dictCode
     omega
@@ -589,7 +594,7 @@ theorem blockRead_spec {x : X} {sr : Sr} {b : Blk} {D : ByteArray}
     · -- the block goes on
       simp only at hs
       obtain ⟨a1, a2, a3, a4⟩ := q2 hs
-      refine ⟨a1, rfl, blkAfter b (r2', out, st), ⟨hxi, hxc, hxs, rfl, D0, Dblk ++ out, hDout, hbdata, hszB.symm ▸ rfl,
+      refine ⟨a1, rfl, blkAfter b (r2', out, st), ⟨hxi, hxc, hxs, hxe, rfl, D0, Dblk ++ out, hDout, hbdata, hszB.symm ▸ rfl,
         hstart, hsle, hhl, ?_, ?_⟩, rfl⟩
       · show R2Inv (max capX (dictSize b.hdr.dictCode)) inp D0.size
           (Lzma2.decode false (max capX (dictSize b.hdr.dictCode)) inp b.start D0) b.start r2' (Dblk ++ out)
@@ -649,7 +654,7 @@ theorem blockRead_spec {x : X} {sr : Sr} {b : Blk} {D : ByteArray}
     rw [k4, k5] at c1; cases c1
   rw [if_neg c1]
   by_cases c2 : r2'.srcPos + padLen (r2'.srcPos - b.start) + (checkSize sr.flags).getD 0 > x.inp.size
-  · rw [if_pos c2]
+  · rw [if_pos c2, ite_src hxe]
     refine ⟨q1, (fun h => by cases h), (fun h => by cases h), fun e he => ?_⟩
     cases he
     refine xfin_err nb_ueof hprefix (hne_of (fun rs e1 e3 hst => ?_))
@@ -675,7 +680,7 @@ theorem blockRead_spec {x : X} {sr : Sr} {b : Blk} {D : ByteArray}
     exact c4 k8
   rw [if_neg c4]
   -- the block is accepted
-  refine ⟨q1, (fun h => by cases h), fun _ => ⟨⟨hxi, hxc, hxs, rfl, fun hK => ?_⟩, by simp only; omega⟩,
+  refine ⟨q1, (fun h => by cases h), fun _ => ⟨⟨hxi, hxc, hxs, hxe, rfl, fun hK => ?_⟩, by simp only; omega⟩,
     (fun e he => by cases he)⟩
   obtain ⟨rs, bs, fB, fS, e1, e2, e3, e4⟩ := hKX hK
   simp only [Bool.or_eq_true, not_or, Bool.not_eq_true] at c1
@@ -729,7 +734,7 @@ def SInv (capX : Nat) (single : Bool) (inp : ByteArray) (BX : RdState × Status)
 
 /-- after the tail of a stream -/
 def AfterInv (capX : Nat) (single : Bool) (inp : ByteArray) (BX : RdState × Status) (x : X) (D : ByteArray) : Prop :=
-  x.inp = inp ∧ x.cfgCap = capX ∧ x.single = single ∧
+  x.inp = inp ∧ x.cfgCap = capX ∧ x.single = single ∧ x.srcErr = false ∧
   (KX BX → ∃ (rs : RdState) (fS : Nat), rs.inp = inp ∧ rs.pos = x.pos ∧ rs.out = D ∧
     (if single then (if rs.pos < rs.inp.size then (rs, Status.err "unexpected data after stream") else (rs, Status.eof))
      else readStreams false capX single fS false rs) = BX)
@@ -795,7 +800,8 @@ theorem streamRead_spec (p0 len : Nat) (D0 : ByteArray) :
     rw [if_pos hlt] at hn
     rcases hinv with hinv | ⟨b, hinv⟩
     · -- between two blocks
-      obtain ⟨hxi, hxc, hxs, hbr, hKX⟩ := hinv
+      obtain ⟨hxi, hxc, hxs, hxe, hbr, hKX⟩ := hinv
+      have hE : ∀ st, ofStatusE x.srcErr st = ofStatus st := fun st => by rw [hxe, ofStatusE_false]
       have hxp : xp x sr = x.pos := by unfold xp; rw [hbr]
       rw [hbr] at hn ⊢
       simp only [if_true] at hn ⊢
@@ -811,6 +817,7 @@ theorem streamRead_spec (p0 len : Nat) (D0 : ByteArray) :
       cases hh : readBlockHeader false x.inp x.pos with
       | fail st =>
         simp only
+        rw [hE]
         have hb : KX BX → ∃ (rs : RdState) (fS : Nat) (bs : Array Block), rs.inp = inp ∧ rs.pos = x.pos ∧
             rs.out = D0 ++ acc ∧ contS capX single fS sr.flags (rs, st, bs) = BX := by
           intro hK
@@ -820,7 +827,7 @@ theorem streamRead_spec (p0 len : Nat) (D0 : ByteArray) :
           exact ⟨rs, fS, bs, e1, e2, e3, e4⟩
         cases st with
         | eof =>
-          refine ⟨Nat.le_of_lt hlt, (fun h => by cases h), fun _ => ⟨⟨hxi, hxc, hxs, fun hK => ?_⟩, hp0⟩,
+          refine ⟨Nat.le_of_lt hlt, (fun h => by cases h), fun _ => ⟨⟨hxi, hxc, hxs, hxe, fun hK => ?_⟩, hp0⟩,
             (fun e he => by cases he)⟩
           obtain ⟨rs, fS, bs, e1, e2, e3, e4⟩ := hb hK
           rw [contS_eof] at e4
@@ -858,14 +865,14 @@ theorem streamRead_spec (p0 len : Nat) (D0 : ByteArray) :
           rw [← hrt]; exact (readTail_props _ _ _).2.2
         by_cases hte : rt.2 = .eof
         · rw [if_pos hte]
-          refine ⟨Nat.le_of_lt hlt, (fun h => by cases h), fun _ => ⟨⟨hxi, hxc, hxs, fun hK => ?_⟩, ?_⟩,
+          refine ⟨Nat.le_of_lt hlt, (fun h => by cases h), fun _ => ⟨⟨hxi, hxc, hxs, hxe, fun hK => ?_⟩, ?_⟩,
             (fun e he => by cases he)⟩
           · obtain ⟨rs, fS, bs, e1, e2, e3, e4⟩ := hb hK
             rw [hte, contS_eof] at e4
             exact ⟨{ rs with streams := rs.streams.push { flags := sr.flags, blocks := bs } }, fS, e1, e2, e3, e4⟩
           · have := hmono hte
             simp only; omega
-        · rw [if_neg hte]
+        · rw [if_neg hte, hE]
           have hfin : ∀ e, ofStatus rt.2 = .err e → XFin BX (D0 ++ acc) (.err e) := by
             intro e he
             have hnb : NotBad (.err e) := by rw [← he]; exact nb_ofStatus _
@@ -879,6 +886,7 @@ theorem streamRead_spec (p0 len : Nat) (D0 : ByteArray) :
             exact hte hs
       | ok hdr =>
         simp only
+        rw [show newReader2AtE x.srcErr = newReader2At from by rw [hxe]; rfl]
         obtain ⟨hb1, hb2⟩ := rbh_ok _ _ _ hh
         rw [hxi] at hb1
         -- the new block reader
@@ -888,7 +896,7 @@ theorem streamRead_spec (p0 len : Nat) (D0 : ByteArray) :
         have hinit := init_inv (max x.cfgCap (dictSize hdr.dictCode)) inp (x.pos + hdr.len) (D0 ++ acc)
         rw [if_neg hcap0, hxc] at hinit
         have hE : D0 ++ acc ++ ByteArray.empty = D0 ++ acc := ByteArray.append_empty
-        refine ih x _ acc (Or.inr ⟨_, hxi, hxc, hxs, rfl, D0 ++ acc, ByteArray.empty, hE.symm, rfl, rfl, rfl, hb1,
+        refine ih x _ acc (Or.inr ⟨_, hxi, hxc, hxs, hxe, rfl, D0 ++ acc, ByteArray.empty, hE.symm, rfl, rfl, rfl, hb1,
           by show 1 ≤ hdr.len; omega, ?_, fun hK => ?_⟩) hle (by unfold xp; simp only; omega)
           (by rw [if_pos hlt]; unfold xp; simp only [reduceCtorEq, if_false]; omega)
         · show R2Inv (max capX (dictSize hdr.dictCode)) inp (D0 ++ acc).size
@@ -902,8 +910,8 @@ theorem streamRead_spec (p0 len : Nat) (D0 : ByteArray) :
           simp only [e1, e2, e3] at e4 ⊢
           exact e4
     · -- inside a block
-      have hbr : sr.br = some b := hinv.2.2.2.1
-      have hstart : b.start ≤ inp.size := hinv.2.2.2.2.choose_spec.choose_spec.2.2.2.2.1
+      have hbr : sr.br = some b := hinv.2.2.2.2.1
+      have hstart : b.start ≤ inp.size := hinv.2.2.2.2.2.choose_spec.choose_spec.2.2.2.2.1
       have hxp : xp x sr = b.start := by unfold xp; rw [hbr]
       rw [hbr] at hn ⊢
       simp only [if_false, reduceCtorEq] at hn ⊢
@@ -920,16 +928,16 @@ theorem streamRead_spec (p0 len : Nat) (D0 : ByteArray) :
         simp only
         obtain ⟨o1, o2, b', o3, o4⟩ := q2 rfl
         rw [hasm] at o3
-        have hxp' : xp x' sr' = b.start := by unfold xp; rw [o3.2.2.2.1]; exact o4
+        have hxp' : xp x' sr' = b.start := by unfold xp; rw [o3.2.2.2.2.1]; exact o4
         exact ih x' sr' (acc ++ out) (Or.inr ⟨b', o3⟩) (by omega) (by rw [hxp']; exact hp0)
           (by rw [if_neg (by omega)]; omega)
       | eof =>
         simp only
         obtain ⟨e1, e2⟩ := q3 rfl
         rw [hasm] at e1
-        have hxp' : xp x' sr' = x'.pos := by unfold xp; rw [e1.2.2.2.1]
+        have hxp' : xp x' sr' = x'.pos := by unfold xp; rw [e1.2.2.2.2.1]
         refine ih x' sr' (acc ++ out) (Or.inl e1) (by omega) (by rw [hxp']; omega) ?_
-        rw [hxp', e1.2.2.2.1]
+        rw [hxp', e1.2.2.2.2.1]
         simp only [if_true]
         split_ifs <;> omega
       | err e =>
@@ -959,7 +967,8 @@ def SkipPost (capX : Nat) (single : Bool) (inp : ByteArray) (BX : RdState × Sta
   | .fail st => XFin BX D st ∧ st ≠ .ok
   | .padding _ => False
 
-theorem skip_spec {x : X} {D : ByteArray} (hxi : x.inp = inp) (hxc : x.cfgCap = capX) (hxs : x.single = single) :
+theorem skip_spec {x : X} {D : ByteArray} (hxi : x.inp = inp) (hxc : x.cfgCap = capX) (hxs : x.single = single)
+    (hxe : x.srcErr = false) :
     ∀ (f p : Nat), GapAt capX single inp BX p D → (inp.size - p) / 4 + 1 ≤ f → x.pos ≤ p →
     SkipPost capX single inp BX x x.pos D (readLoop.skip x f p) := by
   intro f
@@ -967,8 +976,9 @@ theorem skip_spec {x : X} {D : ByteArray} (hxi : x.inp = inp) (hxc : x.cfgCap = 
   | zero => intro p _ hf _; omega
   | succ f ih =>
     intro p hg hf hp
-    rw [readLoop.skip.eq_2]
-    unfold newStreamReader
+    rw [readLoop.skip.eq_2, hxe]
+    unfold newStreamReaderE
+    simp only [Bool.false_eq_true, if_false, ofStatusE_false]
     have hprefix : KX BX → D.data.toList <+: BX.1.out.data.toList := by
       intro hK
       obtain ⟨rs, fS, e1, e2, e3, e4⟩ := hg hK
@@ -1020,7 +1030,7 @@ theorem skip_spec {x : X} {D : ByteArray} (hxi : x.inp = inp) (hxc : x.cfgCap = 
       simp only
       have hb := rsh_ok _ _ _ hh
       rw [hxi] at hb
-      refine ⟨by omega, hb, hxi, hxc, hxs, rfl, fun hK => ?_⟩
+      refine ⟨by omega, hb, hxi, hxc, hxs, hxe, rfl, fun hK => ?_⟩
       obtain ⟨rs, fS, e1, e2, e3, e4⟩ := hg hK
       obtain ⟨f', rfl⟩ := kx_fuel_streams hK e4
       rw [readStreams_ok _ _ _ _ _ _ (by rw [e1, e2, ← hxi]; exact hh)] at e4
@@ -1041,11 +1051,13 @@ def ReadPost (capX : Nat) (single : Bool) (inp : ByteArray) (BX : RdState × Sta
   (res.2.2 ≠ .ok → XFin BX (D0 ++ res.2.1) res.2.2)
 
 theorem SInv.congr {x x' : X} {sr : Sr} {D : ByteArray} (h : SInv capX single inp BX x sr D)
-    (h1 : x'.inp = x.inp) (h2 : x'.pos = x.pos) (h3 : x'.cfgCap = x.cfgCap) (h4 : x'.single = x.single) :
+    (h1 : x'.inp = x.inp) (h2 : x'.pos = x.pos) (h3 : x'.cfgCap = x.cfgCap) (h4 : x'.single = x.single)
+    (h5 : x'.srcErr = x.srcErr) :
     SInv capX single inp BX x' sr D := by
-  rcases h with ⟨a1, a2, a3, a4, a5⟩ | ⟨b, a1, a2, a3, a4, D0, Dblk, c1, c2, c3, c4, c5, c6, c7, c8⟩
-  · exact Or.inl ⟨by rw [h1]; exact a1, by rw [h3]; exact a2, by rw [h4]; exact a3, a4, by rw [h2]; exact a5⟩
-  · exact Or.inr ⟨b, by rw [h1]; exact a1, by rw [h3]; exact a2, by rw [h4]; exact a3, a4, D0, Dblk, c1, c2, c3,
+  rcases h with ⟨a1, a2, a3, a0, a4, a5⟩ | ⟨b, a1, a2, a3, a0, a4, D0, Dblk, c1, c2, c3, c4, c5, c6, c7, c8⟩
+  · exact Or.inl ⟨by rw [h1]; exact a1, by rw [h3]; exact a2, by rw [h4]; exact a3, by rw [h5]; exact a0, a4,
+      by rw [h2]; exact a5⟩
+  · exact Or.inr ⟨b, by rw [h1]; exact a1, by rw [h3]; exact a2, by rw [h4]; exact a3, by rw [h5]; exact a0, a4, D0, Dblk, c1, c2, c3,
       by rw [h2]; exact c4, c5, c6, c7, by rw [h2]; exact c8⟩
 
 theorem xfin_ok_absurd {X : ByteArray} : XFin BX X .ok → True := fun _ => trivial
@@ -1067,7 +1079,7 @@ theorem readLoopX_spec (len : Nat) (D0 : ByteArray) :
       exact ⟨hle, fun _ => ⟨by simp only; omega, hinv⟩, (fun h => absurd rfl h)⟩
     rw [if_pos hlt]
     rw [if_pos hlt] at hn
-    rcases hinv with ⟨sr, hsr, hinv⟩ | ⟨hsr, hxi, hxc, hxs, hKX⟩
+    rcases hinv with ⟨sr, hsr, hinv⟩ | ⟨hsr, hxi, hxc, hxs, hxe, hKX⟩
     · -- inside a stream
       have hxi : x.inp = inp := by
         rcases hinv with h | ⟨b, h⟩
@@ -1095,7 +1107,7 @@ theorem readLoopX_spec (len : Nat) (D0 : ByteArray) :
         simp only
         obtain ⟨o1, o2, o3⟩ := q2 rfl
         rw [hasm] at o2
-        refine ih _ (acc ++ out) (Or.inl ⟨sr', rfl, o2.congr rfl rfl rfl rfl⟩) (by omega)
+        refine ih _ (acc ++ out) (Or.inl ⟨sr', rfl, o2.congr rfl rfl rfl rfl rfl⟩) (by omega)
           (by rw [if_neg (by omega)]; omega)
       | eof =>
         simp only
@@ -1142,7 +1154,7 @@ theorem readLoopX_spec (len : Nat) (D0 : ByteArray) :
           simp only [if_true] at e4
           rw [if_pos (by rw [e1, e2, ← hxi]; exact hps)] at e4
           rw [← e4]; intro h; cases h
-        · rw [if_neg hps]
+        · rw [if_neg hps, ite_src hxe]
           refine ⟨Nat.le_of_lt hlt, (fun h => by cases h), fun _ => ⟨nb_eof, hprefix, fun _ hK => ?_,
             (fun e he => by cases he)⟩⟩
           obtain ⟨rs, fS, e1, e2, e3, e4⟩ := hKX hK
@@ -1160,7 +1172,7 @@ theorem readLoopX_spec (len : Nat) (D0 : ByteArray) :
           simp only [Bool.false_eq_true, if_false] at e4
           rw [hsg]
           exact ⟨rs, fS, e1, e2, e3, e4⟩
-        have hsk := skip_spec (BX := BX) hxi hxc hxs (x.inp.size / 4 + 2) x.pos hgap
+        have hsk := skip_spec (BX := BX) hxi hxc hxs hxe (x.inp.size / 4 + 2) x.pos hgap
           (by rw [hxi]; omega) (Nat.le_refl _)
         cases hskr : readLoop.skip x (x.inp.size / 4 + 2) x.pos with
         | ok sr' pos' =>
@@ -1170,7 +1182,7 @@ theorem readLoopX_spec (len : Nat) (D0 : ByteArray) :
           refine ih _ acc (Or.inl ⟨sr', rfl, Or.inl k3⟩) hle ?_
           have : xpR ({ x with pos := pos', sr := some sr' } : X) = pos' := by
             unfold xpR xp
-            simp only [k3.2.2.2.1]
+            simp only [k3.2.2.2.2.1]
           rw [this, if_pos hlt]
           simp only [reduceCtorEq, if_false]
           omega
@@ -1209,14 +1221,14 @@ def SeqPostX (BX : RdState × Status) (D : ByteArray) (lens : List Nat) (rs : Li
 theorem XInv.pre {x : X} {D : ByteArray} (h : XInv capX single inp BX x D) (hK : KX BX) :
     D.data.toList <+: BX.1.out.data.toList := by
   rcases h with ⟨sr, _, h | ⟨b, h⟩⟩ | ⟨_, h⟩
-  · obtain ⟨_, _, _, _, hKX⟩ := h
+  · obtain ⟨_, _, _, _, _, hKX⟩ := h
     obtain ⟨rs, bs, fB, fS, e1, e2, e3, e4⟩ := hKX hK
     have := (readBlocks_ext capX sr.flags fB rs bs sr.index).trans (contS_ext' capX single fS sr.flags _)
     rw [e4] at this
     have h2 := this.2
     rw [e3] at h2
     exact h2
-  · obtain ⟨_, _, _, _, D0, Dblk, hD, _, _, _, _, _, hR2, hKX⟩ := h
+  · obtain ⟨_, _, _, _, _, D0, Dblk, hD, _, _, _, _, _, hR2, hKX⟩ := h
     obtain ⟨rs, bs, fB, fS, e1, e2, e3, e4⟩ := hKX hK
     have hx := (contB_ext capX sr.flags fB b.hdr bs sr.index
       (blkOut sr.flags b.hdr { rs with pos := b.start }
@@ -1238,7 +1250,7 @@ theorem XInv.pre {x : X} {D : ByteArray} (h : XInv capX single inp BX x D) (hK :
     obtain ⟨t, ht⟩ := hpre0
     rw [← ht, List.drop_left' (by rw [length_toList])]
     exact (List.prefix_append_right_inj _).mpr (List.take_prefix _ _)
-  · obtain ⟨_, _, _, hKX⟩ := h
+  · obtain ⟨_, _, _, _, hKX⟩ := h
     obtain ⟨rs, fS, e1, e2, e3, e4⟩ := hKX hK
     cases hsg : single with
     | true =>
@@ -1348,11 +1360,49 @@ theorem xzread_eq (capX : Nat) (single : Bool) (inp : ByteArray) :
   unfold Xz.read bx
   exact ⟨rfl, rfl⟩
 
+/-- with a failing source `newStreamReader` never reports a clean end -/
+theorem nsE_ne_eof (inp : ByteArray) (p : Nat) : newStreamReaderE true inp p ≠ .fail .eof := by
+  unfold newStreamReaderE
+  cases hh : readStreamHeader inp p with
+  | cleanEnd => intro h; cases h
+  | padding => intro h; cases h
+  | ok flags => intro h; cases h
+  | fail st =>
+    have hne := rsh_fail_ne _ _ _ hh
+    cases st with
+    | eof => exact absurd rfl hne
+    | unexpectedEOF => intro h; cases h
+    | err w => intro h; cases h
+
+theorem skip_fail_eof (x : X) : ∀ (f p : Nat), readLoop.skip x f p = .fail .eof → x.srcErr = false := by
+  intro f
+  induction f with
+  | zero => intro p h; rw [readLoop.skip.eq_1] at h; cases h
+  | succ f ih =>
+    intro p h
+    rw [readLoop.skip.eq_2] at h
+    cases hb : x.srcErr with
+    | false => rfl
+    | true =>
+      exfalso
+      rw [hb] at h
+      cases hn : newStreamReaderE true x.inp p with
+      | padding p' =>
+        rw [hn] at h
+        have := ih p' h
+        rw [hb] at this; cases this
+      | ok sr pos => rw [hn] at h; cases h
+      | fail st =>
+        rw [hn] at h
+        simp only at h
+        rw [h] at hn
+        exact nsE_ne_eof _ _ hn
+
 theorem newReader_init (cfgCap : Nat) (single : Bool) (inp : ByteArray) (x : X)
     (h : newReader cfgCap single inp = .ok x) :
     XInv cfgCap single inp (bx cfgCap single inp) x ByteArray.empty := by
-  unfold newReader newStreamReader at h
-  simp only at h
+  unfold newReader newReaderE newStreamReaderE at h
+  simp only [Bool.false_eq_true, if_false] at h
   split_ifs at h with hc
   cases hh : readStreamHeader inp 0 with
   | cleanEnd => rw [hh] at h; cases h
@@ -1365,7 +1415,7 @@ theorem newReader_init (cfgCap : Nat) (single : Bool) (inp : ByteArray) (x : X)
     rw [hh] at h
     simp only at h
     cases h
-    refine Or.inl ⟨_, rfl, Or.inl ⟨rfl, rfl, rfl, rfl, fun hK => ?_⟩⟩
+    refine Or.inl ⟨_, rfl, Or.inl ⟨rfl, rfl, rfl, rfl, rfl, fun hK => ?_⟩⟩
     refine ⟨{ inp := inp, pos := 0 + 12, out := .empty }, #[], inp.size - 0 + 2, inp.size / 4 + 2, rfl, rfl, rfl, ?_⟩
     unfold bx
     rw [readStreams_ok _ _ _ _ _ _ hh]
